@@ -186,6 +186,45 @@ fn tokens() -> Vec<(String, Vec<u8>)> {
     t
 }
 
+/// Boundary sweeps from the initial state (no BFS): (label, input).
+///  * an OSC whose payload has every 7-bit byte value in the slots around the fixed buffer's end
+///    (payload lengths 1022..=1026 and 1100; BEL and ST terminated);
+///  * every parameter / sub-parameter value 0..=70000 (and some larger ones) in CSI and DCS position.
+fn sweep_inputs() -> Vec<(String, Vec<u8>)> {
+    let mut v = vec![];
+    for len in [1022usize, 1023, 1024, 1025, 1026, 1100] {
+        for pos in [len - 1, 1021, 1022, 1023, 1024] {
+            if pos >= len {
+                continue;
+            }
+            for b in 0x20u8..=0x7f {
+                if b == b'a' {
+                    continue;
+                }
+                let mut payload = vec![b'a'; len];
+                payload[pos] = b;
+                for (tn, term) in [("BEL", &b"\x07"[..]), ("ST", &b"\x1b\\"[..])] {
+                    v.push((format!("OSC[a*{len},byte{pos}=0x{b:02x}]{tn}"), [b"\x1b]", &payload[..], term, b"z"].concat()));
+                }
+            }
+        }
+    }
+    // separators straddling the end of the buffer
+    for k in [510usize, 511, 512, 513] {
+        v.push((format!("OSC[(a;)*{k}]BEL"), [b"\x1b]".to_vec(), b"a;".repeat(k), b"\x07z".to_vec()].concat()));
+        v.push((format!("OSC[0;(ab)*{k}]ST"), [b"\x1b]0;".to_vec(), b"ab".repeat(k), b"\x1b\\z".to_vec()].concat()));
+    }
+    let mut values: Vec<u64> = (0..=70000).collect();
+    values.extend([99999, 131071, 131072, 655359, 655360, 4294967295, 4294967296, 99999999999, 18446744073709551615]);
+    for x in values {
+        v.push((format!("CSI {x} m"), format!("\x1b[{x}mz").into_bytes()));
+        v.push((format!("CSI 1:{x} m"), format!("\x1b[1:{x}mz").into_bytes()));
+        v.push((format!("CSI {x};{x} H"), format!("\x1b[{x};{x}Hz").into_bytes()));
+        v.push((format!("DCS {x};1 q"), format!("\x1bP{x};1qz\x1b\\").into_bytes()));
+    }
+    v
+}
+
 fn main() {
     let args: Vec<String> = std::env::args().collect();
     let depth: usize = args.get(1).and_then(|s| s.parse().ok()).unwrap_or(4);
@@ -205,17 +244,60 @@ fn main() {
     for (trace, d, capped) in &digests {
         writeln!(f, "{} {:016x} {}", hex(trace), d, *capped as u8).unwrap();
     }
-    let viol: Vec<serde_json::Value> = rep
+    let mut viol: Vec<serde_json::Value> = rep
         .violations
         .iter()
         .map(|v| serde_json::json!({"trace": v.trace, "labels": v.labels, "message": v.message}))
         .collect();
+    // boundary sweeps from the initial state
+    let sweep = sweep_inputs();
+    let mut sweep_bad = 0u64;
+    let mut sweep_capped = 0u64;
+    for (label, input) in &sweep {
+        let r = guard(|| {
+            let mut imp = Parser::<anstyle_parse::DefaultCharAccumulator>::new();
+            let mut model = Vt::new(cfg());
+            let mut rec = Recorder::default();
+            for &b in input {
+                imp.advance(&mut rec, b);
+            }
+            let mut exp = vec![];
+            let mut capped = false;
+            for &b in input {
+                let e = model.advance(b);
+                if e.iter().any(|e| matches!(e, Ev::Osc { .. })) && model.last_osc_capped {
+                    capped = true;
+                }
+                exp.extend(e);
+            }
+            let real = normalise(rec.0, capped);
+            let exp = normalise(exp, capped);
+            if real != exp {
+                let n = real.iter().zip(&exp).take_while(|(a, b)| a == b).count();
+                return Err(format!("[{}] callbacks differ for {label}: event #{n}: parser {}, model {}", cfg_name(), short(real.get(n)), short(exp.get(n))));
+            }
+            Ok((hash_of(&real), capped))
+        })
+        .and_then(|r| r);
+        match r {
+            Ok((d, capped)) => {
+                sweep_capped += capped as u64;
+                writeln!(f, "S:{} {:016x} {}", label.replace(' ', "_"), d, capped as u8).unwrap();
+            }
+            Err(m) => {
+                sweep_bad += 1;
+                if viol.len() < 30 {
+                    viol.push(serde_json::json!({"trace": [], "labels": [label], "message": m}));
+                }
+            }
+        }
+    }
     println!(
         "RESULT {}",
         serde_json::json!({
             "config": cfg_name(), "states": rep.states, "transitions": rep.transitions, "depth_completed": rep.depth_completed,
             "frontier_at_bound": rep.frontier_at_bound, "capped": rep.capped, "distinct_observations": rep.distinct_observations,
-            "pruned_violating": rep.pruned_violating, "violations": viol, "digests": digests.len(),
+            "pruned_violating": rep.pruned_violating + sweep_bad, "violations": viol, "sweep_inputs": sweep.len(), "sweep_capped_osc": sweep_capped, "digests": digests.len(),
             "capped_osc_transitions": digests.iter().filter(|d| d.2).count(), "wall_s": rep.wall_s,
             "sample_traces": rep.sample_traces,
         })
